@@ -23,7 +23,7 @@ CONSTANT SharedField   \* "none" (the code) | "params" | "consumer" | "alt" | "b
 (* ---- the fixed test API (mirrored by harness/drive/c09) ---------------- *)
 (* opA: POST /a/{id}  security [{key:[ska]}]            body, json|text     *)
 (* opB: POST /b/{id}  no security                       body, json|text     *)
-(* opC: GET  /c/{id}  security [{key:[skc]},{tok:[stc1,stc2]}]  no body     *)
+(* opC: GET  /c/{id}  security [{key:[skc]},{tok:[stc2,stc1]}] (declared out of lexical order on purpose: a reader must not sort the shared slice, seed C09-17)  no body     *)
 (* opD: POST /d       security [{key:[skd]}]            body, json|text     *)
 (*      (a parameter-free, static route)                                    *)
 (* opE: POST /e       no security                       body, json|text     *)
@@ -38,7 +38,7 @@ Alts(op) == CASE op = "opA" -> << [scheme |-> "key", scopes |-> <<"ska">>] >>
               [] op = "opB" -> << >>
               [] op = "opE" -> << >>
               [] op = "opC" -> << [scheme |-> "key", scopes |-> <<"skc">>],
-                                  [scheme |-> "tok", scopes |-> <<"stc1", "stc2">>] >>
+                                  [scheme |-> "tok", scopes |-> <<"stc2", "stc1">>] >>
 Secured(op) == Alts(op) # << >>
 ScopesAt(op, i) == IF i \in DOMAIN Alts(op) THEN Alts(op)[i].scopes ELSE <<"?">>
 
